@@ -81,22 +81,162 @@ func (p *Prog) siteOf(in ssa.Instruction) string {
 // ---- GUARD ----
 
 // Guard checks that the facts (dominance + imported summaries) at instruction `in` match all atom
-// patterns (sharing bindings b). Records an obligation.
+// patterns (sharing bindings b). A pattern that is not established inside the function is lifted to
+// the function's call sites (the bindings are translated through the parameter substitution), so a
+// guard may live in a caller after an extract-function refactoring. If a pattern names a module
+// function that no longer exists anywhere, the rule cannot decide (UNDECIDED) instead of alarming.
 func (c *Check) Guard(p *Prog, rule, key string, in ssa.Instruction, desc string, b Binds, pats ...string) bool {
-	fi := p.Info(in.Parent())
-	facts := fi.FactsWithImports(in)
 	if b == nil {
 		b = Binds{}
 	}
-	used, missing := requireAtoms(facts, b, pats...)
 	fn := shortFn(in.Parent())
 	c.Analysed(fn)
-	if missing != "" {
+	if missing := p.missingCallees(pats); len(missing) > 0 {
+		c.Undecided("rule %s (%s): the rule's subject function(s) %s no longer exist in the module; cannot decide", rule, key, strings.Join(missing, ", "))
+		return false
+	}
+	ok, used, missing, facts := p.guardLift(in, b, pats, 0)
+	if !ok {
 		c.Fail(rule, key, p.siteOf(in), fn, desc, "no dominating fact matches `"+missing+"`", atomStrings(facts)...)
 		return false
 	}
 	c.Ok(rule, key, p.siteOf(in), fn, desc, used...)
 	return true
+}
+
+func (p *Prog) guardLift(in ssa.Instruction, b Binds, pats []string, depth int) (bool, []string, string, []Atom) {
+	fi := p.Info(in.Parent())
+	facts := fi.FactsWithImports(in)
+	var used []string
+	var rest []string
+	for _, ps := range pats {
+		if a, ok := findAtom(facts, ps, b); ok {
+			used = append(used, a.s)
+		} else {
+			rest = append(rest, ps)
+		}
+	}
+	if len(rest) == 0 {
+		return true, used, "", facts
+	}
+	fn := in.Parent()
+	if depth >= 2 {
+		return false, used, rest[0], facts
+	}
+	// closures: lift into the enclosing function at the closure's creation site
+	if par := fn.Parent(); par != nil {
+		for _, blk := range par.Blocks {
+			for _, x := range blk.Instrs {
+				if mc, ok := x.(*ssa.MakeClosure); ok && mc.Fn == ssa.Value(fn) {
+					nb := Binds{}
+					for k, v := range b {
+						nb[k] = v.freeToParams()
+					}
+					ok2, u2, m2, _ := p.guardLift(mc, nb, rest, depth+1)
+					if ok2 {
+						for k, v := range nb {
+							if _, had := b[k]; !had {
+								b[k] = v
+							}
+						}
+						return true, append(used, u2...), "", facts
+					}
+					return false, used, m2, facts
+				}
+			}
+		}
+		return false, used, rest[0], facts
+	}
+	callers := p.CG().Callers(fn)
+	n := 0
+	for _, cs := range callers {
+		if isTestScaffold(cs.Caller) || cs.Instr.Common().IsInvoke() {
+			continue
+		}
+		n++
+		cfi := p.Info(cs.Caller)
+		m := map[string]*Term{}
+		for i, prm := range fn.Params {
+			if i < len(cs.Instr.Common().Args) {
+				m[prm.Name()] = cfi.T(cs.Instr.Common().Args[i])
+			}
+		}
+		nb := Binds{}
+		for k, v := range b {
+			nb[k] = v.subst(m)
+		}
+		ok2, u2, m2, _ := p.guardLift(cs.Instr, nb, rest, depth+1)
+		if !ok2 {
+			return false, used, m2 + " (also not at call site " + p.siteOf(cs.Instr) + ")", facts
+		}
+		used = append(used, u2...)
+	}
+	if n == 0 {
+		return false, used, rest[0], facts
+	}
+	return true, append(used, fmt.Sprintf("(lifted to %d call site(s))", n)), "", facts
+}
+
+// missingCallees: call names in the patterns that look like module functions (contain no dot or a
+// module package path) and match no function of the module.
+func (p *Prog) missingCallees(pats []string) []string {
+	var out []string
+	seen := map[string]bool{}
+	var visit func(pt *Pat)
+	visit = func(pt *Pat) {
+		if pt == nil {
+			return
+		}
+		if pt.K == "call" && !seen[pt.Name] {
+			seen[pt.Name] = true
+			if p.isModuleFuncName(pt.Name) == 0 {
+				out = append(out, pt.Name)
+			}
+		}
+		for _, s := range pt.Sub {
+			visit(s)
+		}
+	}
+	for _, ps := range pats {
+		ap := ParseAtomPat(ps)
+		visit(ap.L)
+		visit(ap.R)
+	}
+	return out
+}
+
+var moduleFuncNames map[string]bool
+
+// isModuleFuncName: 1 if some function/method of the loaded program (module or dependency actually
+// called from the module) has this short name, 0 if none. External callees are found by scanning
+// call sites.
+func (p *Prog) isModuleFuncName(name string) int {
+	if moduleFuncNames == nil {
+		moduleFuncNames = map[string]bool{}
+		for _, fn := range p.Funcs {
+			moduleFuncNames[fn.Name()] = true
+			for _, b := range fn.Blocks {
+				for _, in := range b.Instrs {
+					if ci, ok := in.(ssa.CallInstruction); ok {
+						cc := ci.Common()
+						if cc.IsInvoke() {
+							moduleFuncNames[cc.Method.Name()] = true
+						} else if f := cc.StaticCallee(); f != nil {
+							moduleFuncNames[f.Name()] = true
+						}
+					}
+				}
+			}
+		}
+	}
+	last := name
+	if i := strings.LastIndexAny(last, "./)"); i >= 0 {
+		last = last[i+1:]
+	}
+	if moduleFuncNames[last] {
+		return 1
+	}
+	return 0
 }
 
 // ---- ORDER / MUSTPASS ----
@@ -545,3 +685,211 @@ func lenAtLeastOne(facts []Atom, b Binds, pat string) (string, bool) {
 }
 
 func typeString(t types.Type) string { return types.TypeString(t, relQual) }
+
+// ---- loops reachable through pass-through returns ----
+
+// loopCtx is a loop that must be exhausted before return `ret` of the function under analysis is
+// reached — in that function itself or in a module function whose result the return passes through.
+// Atoms and terms of a callee are translated into the caller's terms with m.
+type loopCtx struct {
+	fi   *FnInfo
+	loop *Loop
+	m    map[string]*Term
+	via  []string
+}
+
+func (lc loopCtx) bound() *Term { return lc.loop.Bound.subst(lc.m) }
+
+// everyIteration with the callee's atoms translated into the caller's terms.
+func (lc loopCtx) everyIteration(pred func(Atom) bool) bool {
+	return lc.fi.everyIterationE(lc.loop, func(a Atom, from, to *ssa.BasicBlock) bool {
+		return pred(mkAtom(a.Op, a.L.subst(lc.m), a.R.subst(lc.m)))
+	})
+}
+
+func (lc loopCtx) everyIterationE(pred func(a Atom, facts []Atom) bool) bool {
+	return lc.fi.everyIterationE(lc.loop, func(a Atom, from, to *ssa.BasicBlock) bool {
+		var facts []Atom
+		for _, f := range append(append([]Atom{}, lc.fi.blockFacts(from)...), lc.fi.edgeAtoms(from, to)...) {
+			facts = append(facts, mkAtom(f.Op, f.L.subst(lc.m), f.R.subst(lc.m)))
+		}
+		return pred(mkAtom(a.Op, a.L.subst(lc.m), a.R.subst(lc.m)), facts)
+	})
+}
+
+// loopCandidates lists the full loops (index from 0, left only by exhaustion towards r) in fn before
+// r, and recursively those of module callees whose result r passes through under conds.
+func (p *Prog) loopCandidates(fn *ssa.Function, r *ssa.Return, conds []ResultCond, m map[string]*Term, depth int) []loopCtx {
+	fi := p.Info(fn)
+	var out []loopCtx
+	for _, l := range loopsOf(p, fn) {
+		if l.Idx == nil || l.Lo != 0 || !l.Header.Dominates(r.Block()) || l.Blocks[r.Block()] {
+			continue
+		}
+		if !fi.onlyByExhaustion(l, r.Block()) {
+			continue
+		}
+		out = append(out, loopCtx{fi: fi, loop: l, m: m})
+	}
+	if depth >= 3 {
+		return out
+	}
+	// facts at r may name successful module calls (res, err := g(...); if res != Accept {return}) —
+	// their loops were exhausted too; and pass-through returns
+	seen := map[*ssa.Call]bool{}
+	var calls []*ssa.Call
+	if g, call := fi.passThrough(r, conds); g != nil {
+		calls = append(calls, call)
+		seen[call] = true
+	}
+	for _, a := range fi.FactsAt(r) {
+		t := a.L
+		if t.K == TRes {
+			t = t.Sub[0]
+		}
+		if t.K != TCall || t.Callee == nil || !inModule(t.Callee) || t.Callee.Blocks == nil {
+			continue
+		}
+		call, _ := t.Val.(*ssa.Call)
+		if call == nil || seen[call] {
+			continue
+		}
+		// only calls whose stated outcome is the success outcome asked for
+		okOutcome := false
+		for _, c := range conds {
+			if a.L.K == TRes && a.L.Idx == c.Idx && a.Op == "==" && a.R.s == c.Const {
+				okOutcome = true
+			}
+			if a.L.K == TCall && c.Idx == 0 && a.Op == "==" && a.R.s == c.Const {
+				okOutcome = true
+			}
+		}
+		if okOutcome {
+			seen[call] = true
+			calls = append(calls, call)
+		}
+	}
+	for _, call := range calls {
+		g := origin(call.Common().StaticCallee())
+		if g == nil || g.Blocks == nil {
+			continue
+		}
+		gm := map[string]*Term{}
+		for i, prm := range g.Params {
+			if i < len(call.Common().Args) {
+				gm[prm.Name()] = fi.T(call.Common().Args[i]).subst(m)
+			}
+		}
+		gfi := p.Info(g)
+		for _, gr := range returnsOf(g) {
+			if gfi.retCompatible(gr, conds) == no {
+				continue
+			}
+			for _, lc := range p.loopCandidates(g, gr, conds, gm, depth+1) {
+				lc.via = append([]string{shortFn(g)}, lc.via...)
+				out = append(out, lc)
+			}
+		}
+	}
+	return out
+}
+
+// forallBefore: before return r of fn (taken with outcome conds) some full loop satisfying check has
+// been exhausted — in fn itself, or in every success-compatible return of a module function whose
+// successful call dominates r (res == Accept, err == nil, ok == true) or whose result r passes through.
+func (p *Prog) forallBefore(fn *ssa.Function, r *ssa.Return, conds []ResultCond, m map[string]*Term, depth int, check func(lc loopCtx) bool) bool {
+	fi := p.Info(fn)
+	for _, l := range loopsOf(p, fn) {
+		if l.Idx == nil || l.Lo != 0 || !l.Header.Dominates(r.Block()) || l.Blocks[r.Block()] || !fi.onlyByExhaustion(l, r.Block()) {
+			continue
+		}
+		if check(loopCtx{fi: fi, loop: l, m: m}) {
+			return true
+		}
+	}
+	if depth >= 3 {
+		return false
+	}
+	type sub struct {
+		call  *ssa.Call
+		conds []ResultCond
+	}
+	subs := map[*ssa.Call]*sub{}
+	var order []*ssa.Call
+	add := func(call *ssa.Call, rc ResultCond) {
+		sb := subs[call]
+		if sb == nil {
+			sb = &sub{call: call}
+			subs[call] = sb
+			order = append(order, call)
+		}
+		for _, e := range sb.conds {
+			if e.Idx == rc.Idx {
+				return
+			}
+		}
+		sb.conds = append(sb.conds, rc)
+	}
+	if g, call := fi.passThrough(r, conds); g != nil {
+		for _, c := range conds {
+			add(call, c)
+		}
+	}
+	for _, a := range fi.FactsAt(r) {
+		t := a.L
+		idx := 0
+		if t.K == TRes {
+			idx = t.Idx
+			t = t.Sub[0]
+		}
+		if t.K != TCall || t.Callee == nil || !inModule(t.Callee) || t.Callee.Blocks == nil || a.Op != "==" {
+			continue
+		}
+		call, _ := t.Val.(*ssa.Call)
+		if call == nil {
+			continue
+		}
+		switch {
+		case a.R.K == TNil:
+			add(call, ResultCond{idx, "nil"})
+		case a.R == termTrue:
+			add(call, ResultCond{idx, "true"})
+		case a.R.K == TConst:
+			for _, c := range conds {
+				if c.Const == a.R.s {
+					add(call, ResultCond{idx, a.R.s})
+				}
+			}
+		}
+	}
+	for _, call := range order {
+		sb := subs[call]
+		g := origin(call.Common().StaticCallee())
+		if g == nil || g.Blocks == nil {
+			continue
+		}
+		gm := map[string]*Term{}
+		for i, prm := range g.Params {
+			if i < len(call.Common().Args) {
+				gm[prm.Name()] = fi.T(call.Common().Args[i]).subst(m)
+			}
+		}
+		gfi := p.Info(g)
+		all, n := true, 0
+		for _, gr := range returnsOf(g) {
+			for _, pf := range gfi.pathFactSets(gr.Block()) {
+				if gfi.retCompatibleF(gr, sb.conds, pf) == no {
+					continue
+				}
+				n++
+				if !p.forallBefore(g, gr, sb.conds, gm, depth+1, check) {
+					all = false
+				}
+			}
+		}
+		if n > 0 && all {
+			return true
+		}
+	}
+	return false
+}
